@@ -23,9 +23,9 @@ TS = [0.005, 0.3, 3.0]
 NSAMP = [2, 12, 30]
 
 
-def integrate_history(xx, epochs, passing):
+def integrate_history(xx, epochs, passing, phi0=None):
     import dadi
-    phi = dadi.PhiManip.phi_1D(xx)
+    phi = dadi.PhiManip.phi_1D(xx) if phi0 is None else phi0
     for nu, T in epochs:
         if passing == 'func':
             phi = dadi.Integration.one_pop(phi, xx, T, nu=(lambda t, v=nu: v))
@@ -61,13 +61,16 @@ def case_history(col, p):
     exact = {n: np.array(CO.expected_sfs(n, epochs)) for n in NSAMP}
     results = {}
     cache = {}
+    start = {}       # one equilibrium density per grid, shared by every rung of the ladder and both passing modes (as a user script would)
 
     def model_factory(passing):
         def model(params, ns, pts):
             key = (passing, pts, dadi.Integration.timescale_factor)
             if key not in cache:
                 xx = dadi.Numerics.default_grid(pts)
-                cache[key] = (xx, integrate_history(xx, epochs, passing))
+                if pts not in start:
+                    start[pts] = dadi.PhiManip.phi_1D(xx)
+                cache[key] = (xx, integrate_history(xx, epochs, passing, start[pts]))
             xx, phi = cache[key]
             return dadi.Spectrum.from_phi(phi, ns, (xx,))
         return model
@@ -153,6 +156,9 @@ def case_history(col, p):
             col.tick(transitions=1)
             if not np.allclose(np.asarray(fs.data)[1:n], raw, rtol=1e-9):
                 col.violation('C01:three_epoch:differs_from_integrator', info, '')
+        for pts, ph in start.items():
+            if not np.array_equal(ph, dadi.PhiManip.phi_1D(dadi.Numerics.default_grid(pts))):
+                col.violation('C01:one_pop:input_modified', dict(info, pts=pts), 'the shared equilibrium density was changed by integrating it')
     finally:
         dadi.Integration.timescale_factor = old
     col.tick(states=1, traces=1)
@@ -313,7 +319,12 @@ def case_stationary(col, p):
                     kw = dict(nu=nu, gamma=gamma, h=h, beta=beta)
                     if passing == 'func':
                         kw['nu'] = (lambda t, v=nu: v)
+                    snap = phi.copy()
                     phi2 = dadi.Integration.one_pop(phi, xx, T, **kw)
+                    if not np.array_equal(phi, snap):
+                        # the equilibrium density handed to the integrator is used again below (and by any caller): it must come back unchanged
+                        col.violation('C01:one_pop:input_modified', dict(p, T=T, passing=passing, G=G), {'maxrelchange': float(np.abs(phi / snap - 1).max())})
+                        phi = snap
                     b = np.asarray(dadi.Spectrum.from_phi(phi2, (n,), (xx,)).data)[1:n]
                     col.tick(transitions=1)
                     worst = max(worst, float(np.abs(b / a - 1).max()))
@@ -328,7 +339,43 @@ def case_stationary(col, p):
     col.distinct('nontrivial', ('stationary', nu, gamma, h, beta))
 
 
-CASES = {'history': case_history, 'growth': case_growth, 'density': case_density, 'closed_form': case_closed_form, 'stationary': case_stationary}
+def case_sel_wrappers(col, p):
+    """library models with selection, run at constant size 1 through all their epochs, must stay at the drift-selection equilibrium
+    (DemogSelModels.equil, itself compared with the closed form in case_closed_form) up to a grid error that contracts under refinement"""
+    import dadi
+    from dadi.DFE import DemogSelModels as M
+    gamma = p['gamma']
+    n = 8
+    Ta, Tb = p['Ts']
+    models = {
+        'two_epoch_sel': (M.two_epoch_sel, [1.0, Ta + Tb, gamma]),
+        'three_epoch_sel': (M.three_epoch_sel, [1.0, 1.0, Ta, Tb, gamma]),
+        'three_epoch_sel_TB0': (M.three_epoch_sel, [1.0, 1.0, 0.0, Tb, gamma]),
+        'three_epoch_sel_TF0': (M.three_epoch_sel, [1.0, 1.0, Ta, 0.0, gamma]),
+        'growth_sel': (M.growth_sel, [1.0, Ta, gamma]),
+        'bottlegrowth_1d_sel': (M.bottlegrowth_1d_sel, [1.0, 1.0, Tb, gamma]),
+    }
+    old = dadi.Integration.timescale_factor
+    dadi.Integration.timescale_factor = 1e-3
+    try:
+        for name, (f, params) in models.items():
+            errs = []
+            for G in (30, 60, 120):
+                a = np.asarray(M.equil([gamma], (n,), G).data)[1:n]
+                b = np.asarray(f(params, (n,), G).data)[1:n]
+                col.tick(transitions=2)
+                errs.append(float(np.abs(b / a - 1).max()))
+            if not ((errs[2] <= 0.45 * errs[0] and errs[2] <= 0.5) or errs[2] < 1e-3):
+                col.violation('C01:%s:leaves_selection_equilibrium' % name.split('_T')[0], dict(p, model=name, params=params), {'relchange_by_grid': errs})
+            else:
+                col.observe('sel_wrappers', errs[2] / max(0.45 * errs[0], 1e-3))
+    finally:
+        dadi.Integration.timescale_factor = old
+    col.tick(states=1, traces=1)
+    col.distinct('nontrivial', ('sel_wrappers', gamma))
+
+
+CASES = {'sel_wrappers': case_sel_wrappers, 'history': case_history, 'growth': case_growth, 'density': case_density, 'closed_form': case_closed_form, 'stationary': case_stationary}
 
 
 def _dispatch(col, case):
@@ -368,6 +415,8 @@ def run(ctx):
         cases.append({'kind': 'closed_form', 'nu': nu, 'gamma': gamma, 'h': h, 'beta': beta, 'theta0': 1.7})
         if abs(gamma * nu) <= 60:
             cases.append({'kind': 'stationary', 'nu': nu, 'gamma': gamma, 'h': h, 'beta': beta, 'Ts': [0.5 * nu, 4.0 * min(nu, 1.0)]})
+    for gamma in (-40.0, -6.0, -1.0, 0.0, 1.0, 5.0, 40.0):
+        cases.append({'kind': 'sel_wrappers', 'gamma': gamma, 'Ts': [0.3, 0.7]})
     cases.sort(key=lambda c: -(sum(e[1] / e[0] for e in c.get('epochs', [])) + (50 if c['kind'] in ('closed_form', 'stationary') else 0)))
     explore.pmap(ctx, _dispatch, cases, chunk=1)
     ctx.tick(evaluations=len(cases))
